@@ -11,11 +11,13 @@ CLAIMS = {
   technique='interprocedural may-alias / effect analysis by abstract interpretation (whole public API)',
   text='Decides, for every exported function and every documented flag variant of the entry table '
        '(d = 2,3 cores, symbolic sizes): no write (subscript store, in-place operator, mutating method, '
-       'out=, SciPy overwrite_*, shuffle) reaches storage that may belong to an argument, and no returned '
+       'out=, SciPy overwrite_a / _b / _x, shuffle; numbers given as 0-d arrays) reaches storage that may belong to an argument, and no returned '
        'array/list may share storage with an argument; the documented exceptions (inplace flag, info/cache '
        'dictionaries, pass-through helpers) are an explicit table and the in-place footprint is checked to '
-       'be exactly two adjacent cores. This is the whole property except the trust in the NumPy '
-       'view-vs-copy table.',
+       'be exactly two adjacent cores. Every entry variant is run a second time with the other documented kind of each argument (mode sizes as an '
+       'ndarray, numbers as 0-d arrays, integers as NumPy integers): same purity rules, plus truth / membership tests that '
+       'only work for the list kind and inputs that are then rejected on every path. This is the whole property except '
+       'the trust in the NumPy view-vs-copy table.',
   note='Trusted: view-vs-copy table of the NumPy model (errs toward "may be a view"); preconditions PRE-TT, '
        'PRE-DOC (undocumented parameters at defaults). User callbacks receive internal state by reference '
        '(not an argument of the caller).'),
@@ -68,7 +70,8 @@ CLAIMS['C14'] = dict(
        'sample_square orthogonalises to core 0, reads the first marginal from core 0 and sweeps right over '
        'right-orthogonal cores; the pivot core whose entries are squared for the first marginal carries a power-of-two '
        'normalisation (exponent-ledger facet); with unique=True every returned row set is a row subset of an np.unique result '
-       '(distinct-rows facet); the LHS remainder is drawn without replacement and columns have length m.',
+       '(distinct-rows facet); the LHS remainder is drawn without replacement and columns have length m. '
+       'Inside the samplers a carried interface whose bond is one rank on one path and another rank on another path is a contraction mismatch (join expansion); truth tests of multi-element arrays (ndarray shape variant of sample_tt) are reported.',
   note='Not decided: that the conditionals multiply to the tensor entry (the distribution itself), uniqueness in '
        'distribution, goodness of fit.')
 CLAIMS['C20'] = dict(
@@ -76,7 +79,8 @@ CLAIMS['C20'] = dict(
   text='Decides the structural part only: the operand handed to the least-squares solver in svd_incomplete is a matrix and '
        'the right-hand side 1-/2-D (the defect that made the function raise for every input); contractions on the path '
        'are consistent where typed; the result is a list of d three-axis float cores; sample_tt returns '
-       '(int [rows,d], [d+1], [d]) as the consumer expects; every mode index is fitted against its own rows (both least-squares operands vary with the loop over the mode index); the rank of the skeleton helper is max(1, min(cap, len - dropped)) as a value.',
+       '(int [rows,d], [d+1], [d]) as the consumer expects; every mode index is fitted against its own rows (both least-squares operands vary with the loop over the mode index); the rank of the skeleton helper is max(1, min(cap, len - dropped)) as a value. '
+       'Truth tests of multi-element arrays in sample_tt (ndarray shape variant) are reported.',
   note='Not decided: recovery of the sampled tensor (numerical, generic), the block layout values.')
 
 CLAIMS['C01'] = dict(
@@ -99,7 +103,8 @@ CLAIMS['C07'] = dict(
        'through the regularised weighted helper with lamb and w forwarded; w enters both AtA and Aty; the system is AtA + lamb I; '
        'missing slices are rejected unless allowed; sweep counter / callback / stop protocol; adaptive mode sends the weights '
        'toward the core visited next; every path through one sweep step recomputes the interface of the next core; optional '
-       'numeric parameters are tested with "is None".',
+       'numeric parameters are tested with "is None". '
+       'The constant-rank result keeps the ranks of Y0 for over-ranked initial tensors too (min / max over free ranks and mode sizes are expanded).',
   note='Not decided: monotone descent, per-core optimality as values, restart equivalence, sample-order independence.')
 CLAIMS['C11'] = dict(
   technique='well-formedness typing of every TT-returning routine for unconstrained symbolic sizes + NaN-taint / guarded-division dataflow',
@@ -109,7 +114,8 @@ CLAIMS['C11'] = dict(
        'denominator flows into a returned tensor or into norm/sum/mean/mul_scalar/erank/accuracy; the -1 sentinel branch of '
        'accuracy dominates the quotient; no square root of a possibly negative scalar product is returned unguarded; no '
        'emptiness test of a sample selection is applied to the size of its boolean mask (mean of an empty slice = NaN); the '
-       'eigenvalues of a Gram matrix are clamped at 0 before their square root is taken.',
+       'eigenvalues of a Gram matrix are clamped at 0 before their square root is taken. '
+       'accuracy_on_data returns the sentinel -1 for each of the three missing-data patterns.',
   note='Not decided: overflow/underflow, LAPACK finiteness, NaN from user data. Accepted denominators are an explicit table '
        '(dense convenience path of accuracy). Grid sizes n_k >= 2 assumed for the Chebyshev routines.')
 
@@ -122,7 +128,8 @@ CLAIMS['C02'] = dict(
        'and are not formed as a difference of prefix sums; the caller\'s cap (Python or NumPy number) is the object that reaches '
        'every factorisation; rank = max(1, min(cap, len - dropped)) on a bounded grid '
        'and the droppable tail is the longest with energy <= e^2; e and r reach every factorisation call and the final rounding '
-       'of add_many; results are well formed with the input mode sizes.',
+       'of add_many; results are well formed with the input mode sizes. '
+       'No quantity that scales with the data is compared with a non-zero literal written in the comparison (absolute thresholds inside matrix_svd / matrix_skeleton / truncate).',
   note='Not decided: the inequality ||Y-Z|| <= e||Y||, quasi-optimal ranks as values, behaviour exactly at a threshold, rounding. '
        'Trusted: orthogonality axioms of LAPACK-backed factorizations.')
 CLAIMS['C03'] = dict(
@@ -131,7 +138,8 @@ CLAIMS['C03'] = dict(
        'remainder (the rule that found the scale-dependent defect); matrix_skeleton returns (weighted, rows)/(cols, weighted)/'
        '(half, half) for give_to l/r/m and matrix_svd an orthonormal-row right factor on both Gram sides; selectors agree; '
        'threshold units; with rel=True the singular values are divided by the largest one; rank formula; unfolding reshapes of '
-       'svd / svd_matrix / full_matrix consistent; results well formed.',
+       'svd / svd_matrix / full_matrix consistent; results well formed. '
+       'Every factorisation of the TT-SVD sweep receives the caller\'s accuracy itself (same object / same default literal in the call log); no data-scaled quantity is compared with an absolute literal; flatten / ravel / reshape never follow memory order (order K / A).',
   note='Not decided: the error bound numerically, exact-rank reproduction, best-approximation property of the factor product. '
        'The interleaving permutation tables are checked in the thorough tier only (bounded q).')
 CLAIMS['C04'] = dict(
@@ -141,7 +149,8 @@ CLAIMS['C04'] = dict(
        'triangular factor is multiplied into the neighbour on its own bond; no bond grows; results well formed; out-of-range '
        'pivots/modes raise ValueError and in-range ones do not (abstract execution of the guards for every literal index); the '
        'in-place variants store exactly two adjacent cores, the default ones none; with use_stab the exponent ledger closes and '
-       'every sweep step rescales.',
+       'every sweep step rescales. '
+       'A valid pivot / mode given as a NumPy integer is accepted.',
   note='Not decided: orthonormality to rounding, entries of moderate magnitude.')
 CLAIMS['C16'] = dict(
   technique='power-of-two exponent ledger as identities of linear forms over symbolic exponents (abstract interpretation)',
@@ -159,7 +168,8 @@ CLAIMS['C05'] = dict(
        'are dimension consistent and every return path (incl. interruptions) is a well-formed tensor of the original mode sizes; '
        'info r/e/e_vld are recomputed from the returned tensor after its last core store, e against a copy from the head of the '
        'sweep; the cache argument reaches only the request wrapper, with_cache and the callback options; cached and uncached '
-       'branches return float arrays in batch order; cache entries pair index k with value k; only unseen indices are evaluated.',
+       'branches return float arrays in batch order; cache entries pair index k with value k; only unseen indices are evaluated. '
+       'The values the request wrapper returns are float64 on the cached and on the uncached path whatever the oracle hands back (the oracle\'s own object is not passed on); the cached and the uncached request are asked under the same conditions.',
   note='Not decided: that maxvol/QR interpolation reproduces a rank-rho tensor, genericity, bit-level equality of cached and '
        'uncached runs; the Kronecker order of the index assembly is left to the existing accuracy tests. utils._maxvol enters '
        'through a summary axiom (validated for maxvol by C08).')
@@ -170,7 +180,8 @@ CLAIMS['C08'] = dict(
        'solves / rank-one update / identity rows are dimension consistent; in maxvol_rect a selected row is masked before F is '
        're-masked in the same iteration and the maxvol rows are masked first; the carried squared row norms are updated to '
        'F - l v**2 (polynomial identity); the pivot division is behind the |B[i,j]| <= e '
-       'break and the Sherman-Morrison factor divides by 1 + squared norm.',
+       'break and the Sherman-Morrison factor divides by 1 + squared norm. '
+       'No absolute literal is compared with a quantity at the scale of the matrix (LU pivots).',
   note='Not decided (the numerical core): A = B A[I], max|B| <= e, row-norm bound, distinctness as a value fact. The column '
        'growth of maxvol_rect is widened (shape of B only partly typed).')
 CLAIMS['C13'] = dict(
@@ -201,7 +212,8 @@ CLAIMS['C17'] = dict(
        'batch and a single index with a single index on every return path; '
        'tt_to_qtt / qtt_to_tt results well formed; e, r forwarded; non-powers of two rejected, powers accepted '
        '(by abstract execution at mode sizes 6, 12, 8, with a symbolic and with even literal left ranks: the rejection '
-       'depends on the mode size alone).',
+       'depends on the mode size alone). '
+       'The first unfolding of core_tt_to_qtt enumerates (left rank, mode) with the left rank fastest; a single QTT-core merges into a new array.',
   note='Not decided: accuracy of the round trip; digit order produced by the halving loop as values.')
 CLAIMS['C18'] = dict(
   technique='rational-function normal forms of the node formulas (composition = identity, endpoints) + clamp, rejection and shape rules',
@@ -211,7 +223,8 @@ CLAIMS['C18'] = dict(
        'option lengths, an option list whose length differs from an explicit d, and scalar options without d are rejected '
        '(abstract execution; a matching list is accepted); option broadcasting, batches, grid_flat and cdf_getter are '
        'dimension consistent with the right result shapes on every return path; the rows of grid_flat enumerate the '
-       'multi-indices with the first index fastest (layout facet); the empirical CDF keeps one step per sample.',
+       'multi-indices with the first index fastest (layout facet); the empirical CDF keeps one step per sample. '
+       'With reps=1 an option comes back as [1, d].',
   note='Not decided: floating-point round trip at cell boundaries, nearest-node ties.')
 CLAIMS['C19'] = dict(
   technique='scalar-degree facet + symbolic 2x2 transfer pattern + shape typing + constant-folded index helpers',
@@ -221,7 +234,8 @@ CLAIMS['C19'] = dict(
        'constructors return well-formed tensors of the requested shape and rank profile and the flat random vector is cut into '
        'pieces of exactly n r r entries; index helpers reject out-of-range positions, normalise negatives and emit little-endian '
        'digits (folded for q <= 3); zero entries of const only under their guard; a float-documented option (shift of poly) '
-       'is never converted to an integer; random constructors draw from _rand(seed).',
+       'is never converted to an integer; random constructors draw from _rand(seed). '
+       'Numeric literals stored into a core have degree 0; the bonds of the random constructors are the requested ranks for every ordering of the free ranks / mode sizes; membership tests on ndarrays are reported.',
   note='Not decided: distribution of random entries, entries of order one for rand_stab.')
 
 _PENDING = 'check not built yet in this session (see DESIGN.md section 7 build order); not claimed'
